@@ -76,7 +76,11 @@ func c17Alphabet() []C {
 		C{Op: "SkipElementsContent", Names: []string{"b", "span"}}, C{Op: "AllowElementsContent", Names: []string{"b", "iframe"}},
 		C{Op: "AllowURLSchemes", Names: []string{"http", "mailto"}}, C{Op: "AllowURLSchemeWithCustomPolicy", Names: []string{"http"}, Fn: "no-query"},
 		els("span", "a"), C{Op: "AllowNoAttrs", Scope: "on", On: []string{"span", "img"}},
-		opt("RequireNoFollowOnFullyQualifiedLinks", true), opt("RequireNoFollowOnFullyQualifiedLinks", false), opt("RequireNoReferrerOnLinks", true), opt("RequireNoReferrerOnLinks", false))
+		opt("RequireNoFollowOnFullyQualifiedLinks", true), opt("RequireNoFollowOnFullyQualifiedLinks", false), opt("RequireNoReferrerOnLinks", true), opt("RequireNoReferrerOnLinks", false),
+		// a second matcher for a property that already has one in the same scope (rules accumulate in every scope)
+		C{Op: "AllowStyles", Names: []string{"color"}, Handler: "is-green", Scope: "global"},
+		C{Op: "AllowStyles", Names: []string{"color"}, Handler: "is-green", Scope: "on", On: []string{"p"}},
+		C{Op: "AllowStyles", Names: []string{"width"}, Enum: []string{"auto"}, Scope: "matching", OnRe: reMy})
 	return al
 }
 
@@ -90,7 +94,7 @@ var c17Probes = []string{
 	`<my-x style="width: 10px; color: red" id="1">w</my-x>`, `<b style="color: red">s</b>`, `<b data-k="v" id="a1">d</b>`, `<!-- c --><b>after comment</b>`,
 	`<x>unknown</x><y/>tail`, `a<x>b</x>c<z>d`, `<script>s</script><style>t</style>v`, `<title>ti</title><object>o</object>w`, `<b id="Abc" title="T!">mixed</b>`,
 	`<img src="x.png" title="t">`, `<a href="//e.x/p" target="_blank">b</a>`, `<a href="#frag">f</a>`, `<span id="">e</span>`, `<i title="<b>">q</i>`,
-	`<iframe sandbox="">s</iframe>`, `<img crossorigin="x" src="http://e.x/a?b">`, `<p>a</p>  <p>b</p>`, `<B ID=q>upper</B>`, `<a href="tel:123">t</a>`, `&lt;b&gt; &amp; text`,
+	`<p style="color: green">g</p>`, `<my-x style="width: auto">a</my-x>`, `<my-y name="5" title="t">n</my-y>`, `<iframe sandbox="">s</iframe>`, `<img crossorigin="x" src="http://e.x/a?b">`, `<p>a</p>  <p>b</p>`, `<B ID=q>upper</B>`, `<a href="tel:123">t</a>`, `&lt;b&gt; &amp; text`,
 }
 
 func probeVector(p *bluemonday.Policy, probes []string) (vec []string, pm string) {
@@ -325,6 +329,92 @@ func runC17(c *run.Ctx) {
 	}
 	hist = hist[:0]
 
+	// ---- using a policy must not matter to what it is or becomes -----------------------------------------
+	// (b) used versus fresh: after a policy has sanitised the probe list eight times over, each probe still gets the
+	//     answer a fresh policy gives as its very first call (sanitising leaves nothing behind in the policy);
+	// (c) use between calls: apply c1, sanitise all probes, apply c2 - the policy must behave like a fresh one given
+	//     c1 and c2 without the use in between. Both for every history of length <=2.
+	n2 := 0
+	for i := -1; i < len(al); i++ {
+		for j := 0; j < len(al); j++ {
+			n2++
+			if n2%c.NShards != c.Shard || c.Expired() {
+				continue
+			}
+			var h []C
+			if i >= 0 {
+				h = append(h, al[i])
+			}
+			h = append(h, al[j])
+			s0 := spec.Spec{Name: "h", Base: "new", Calls: h}
+			fwd, pm := probeVector(spec.Build(s0), c17Probes)
+			if pm != "" {
+				continue
+			}
+			if k, used, fresh := usedVsFresh(s0); k >= 0 {
+				c.Violate("used-vs-fresh", fmt.Sprintf("history %s: after the policy has sanitised the probe documents a few times it turns probe %s into %s; a fresh policy's first call gives %s (sanitising changed the policy)",
+					histStr(h), run.Q(c17Probes[k]), run.Q(used), run.Q(fresh)), c17Case{Mode: "used-vs-fresh", A: append([]C{}, h...)})
+				c.Outcome("violation|used-vs-fresh")
+				continue
+			}
+			c.Eval()
+			c.Transitions++
+			c.Traces++
+			if i >= 0 {
+				pu := spec.Build(spec.Spec{Name: "h", Base: "new", Calls: h[:1]})
+				probeVector(pu, c17Probes)
+				spec.Apply(pu, h[1])
+				used, pm2 := probeVector(pu, c17Probes)
+				c.Eval()
+				c.Transitions++
+				c.Traces++
+				if pm2 == "" {
+					if k := firstDiff(fwd, used); k >= 0 {
+						c.Violate("use-between", fmt.Sprintf("history %s: when the policy sanitises documents between the two calls it then turns probe %s into %s; built without that use it gives %s",
+							histStr(h), run.Q(c17Probes[k]), run.Q(used[k]), run.Q(fwd[k])), c17Case{Mode: "use-between", A: append([]C{}, h...)})
+						c.Outcome("violation|use-between")
+						continue
+					}
+				}
+			}
+			c.Outcome("use-does-not-matter")
+		}
+	}
+
+	// (c') the same from two non-initial policies (links enabled; UGCPolicy): use it, extend it by one call, and it must
+	//      behave like a fresh one extended by that call
+	linksPrefix := []C{attrsOn([]string{"href", "src", "rel", "target", "sandbox", "crossorigin"}, "", "a", "img", "iframe"),
+		{Op: "AllowURLSchemes", Names: []string{"http", "mailto"}}, opt("AllowRelativeURLs", true)}
+	for bi, base := range []spec.Spec{{Name: "links", Base: "new", Calls: linksPrefix}, {Name: "ugc", Base: "ugc"}} {
+		for j, call := range al {
+			if (j+bi)%c.NShards != c.Shard || c.Expired() {
+				continue
+			}
+			full := spec.Spec{Name: base.Name, Base: base.Base, Calls: append(append([]C{}, base.Calls...), call)}
+			fresh, pm := probeVector(spec.Build(full), c17Probes)
+			if pm != "" {
+				continue
+			}
+			pu := spec.Build(base)
+			probeVector(pu, c17Probes)
+			spec.Apply(pu, call)
+			used, pm2 := probeVector(pu, c17Probes)
+			c.Eval()
+			c.Transitions++
+			c.Traces++
+			if pm2 != "" {
+				continue
+			}
+			if k := firstDiff(fresh, used); k >= 0 {
+				c.Violate("use-between|"+base.Name, fmt.Sprintf("a %s policy that sanitised documents and was then extended by %s turns probe %s into %s; extended without that use it gives %s",
+					base.Name, histStr([]C{call}), run.Q(c17Probes[k]), run.Q(used[k]), run.Q(fresh[k])), c17Case{Mode: "use-between-base", A: []C{call}, Base: base.Name})
+				c.Outcome("violation|use-between")
+				continue
+			}
+			c.Outcome("use-does-not-matter")
+		}
+	}
+
 	// non-initial states: from a policy in which links, images and iframes already survive (so that the
 	// link / sandbox / crossorigin options have something to act on), every history of length <=2 over the
 	// alphabet and every history of length <=3 over the boolean options alone
@@ -455,6 +545,28 @@ func runC17(c *run.Ctx) {
 
 // keptButLost reports a tag or attribute present in the re-tokenised `before` output that is
 // missing from `after` (multiset comparison of element names and of element.attribute names).
+// usedVsFresh: one policy sanitises the whole probe list eight times over (so that anything a call can leave behind
+// has been left behind, whichever way map iteration went); then, probe by probe, its answer must be the one a fresh
+// policy gives as its very first call. Returns the first deviating probe or -1.
+func usedVsFresh(s0 spec.Spec) (k int, used, fresh string) {
+	u := spec.Build(s0)
+	var last []string
+	for rep := 0; rep < 8; rep++ {
+		v, pm := probeVector(u, c17Probes)
+		if pm != "" {
+			return -1, "", ""
+		}
+		last = v
+	}
+	for k, d := range c17Probes {
+		f, pm := San(spec.Build(s0), d)
+		if pm == "" && f != last[k] {
+			return k, last[k], f
+		}
+	}
+	return -1, "", ""
+}
+
 func keptButLost(before, after string) string {
 	count := func(s string) map[string]int {
 		m := map[string]int{}
@@ -509,6 +621,46 @@ func replayC17(raw json.RawMessage) (bool, string) {
 			return false, "same behaviour"
 		}
 		return true, fmt.Sprintf("probe %s: %s vs %s", run.Q(c17Probes[i]), run.Q(va[i]), run.Q(vb[i]))
+	case "used-vs-fresh":
+		k, used, fresh := usedVsFresh(spec.Spec{Base: "new", Calls: x.A})
+		if k < 0 {
+			return false, "a used policy behaves like a fresh one"
+		}
+		return true, fmt.Sprintf("probe %s: %s on the used policy, %s as a fresh policy's first call", run.Q(c17Probes[k]), run.Q(used), run.Q(fresh))
+	case "use-between":
+		if len(x.A) < 2 {
+			return false, "needs two calls"
+		}
+		fwd, _ := probeVector(spec.Build(spec.Spec{Base: "new", Calls: x.A}), c17Probes)
+		pu := spec.Build(spec.Spec{Base: "new", Calls: x.A[:1]})
+		probeVector(pu, c17Probes)
+		spec.Apply(pu, x.A[1])
+		used, _ := probeVector(pu, c17Probes)
+		k := firstDiff(fwd, used)
+		if k < 0 {
+			return false, "use between the calls does not matter"
+		}
+		return true, fmt.Sprintf("probe %s: %s after use between the calls, %s without", run.Q(c17Probes[k]), run.Q(used[k]), run.Q(fwd[k]))
+	case "use-between-base":
+		if len(x.A) != 1 {
+			return false, "needs one call"
+		}
+		base := spec.Spec{Base: "ugc"}
+		if x.Base == "links" {
+			base = spec.Spec{Base: "new", Calls: []C{attrsOn([]string{"href", "src", "rel", "target", "sandbox", "crossorigin"}, "", "a", "img", "iframe"),
+				{Op: "AllowURLSchemes", Names: []string{"http", "mailto"}}, opt("AllowRelativeURLs", true)}}
+		}
+		full := spec.Spec{Base: base.Base, Calls: append(append([]C{}, base.Calls...), x.A[0])}
+		fresh, _ := probeVector(spec.Build(full), c17Probes)
+		pu := spec.Build(base)
+		probeVector(pu, c17Probes)
+		spec.Apply(pu, x.A[0])
+		used, _ := probeVector(pu, c17Probes)
+		k := firstDiff(fresh, used)
+		if k < 0 {
+			return false, "use before the call does not matter"
+		}
+		return true, fmt.Sprintf("probe %s: %s after use before the call, %s without", run.Q(c17Probes[k]), run.Q(used[k]), run.Q(fresh[k]))
 	case "additive":
 		if len(x.A) == 0 {
 			return false, "empty history"
